@@ -25,6 +25,7 @@ RULE = (
     "two executions from different prior generator states (seed k + n draws) with another (possibly failing) run in between; distinct = distinct (subject kind, model set, path, policy, prior states); non-trivial = the two prior states differ and the subject draws at least once"
 )
 ASSUMPTIONS = [
+    "seed 0 is a seed like any other (about one of eight seeded scenarios uses it as pipeline seed or model seed)",
     "model functions with a 'seed' parameter are discovered from pyxel.models at check time; recipes exist for the ones listed in evidence under covered_models, the rest is listed under uncovered_models",
     "an unseeded run of a pipeline whose stochastic models all carry their own seed must leave the generator untouched (this is how 'seeding never leaks' is made observable for models that seed internally)",
     "parallel path: only the thread-pool scheduler shares one generator between tasks; the process-pool stub gives every task a private generator",
